@@ -185,7 +185,8 @@ def stats_matrix(seed: int, n: int) -> List[List[dict]]:
     for k in range(3):
         pl = []
         for j in range(4):
-            ts = tuple(r.randrange(0, 10000) for _ in range(r.randrange(0, 6)))
+            # data types only: the control types would be *requests* to the manager, not traffic
+            ts = tuple(t for t in (r.randrange(0, 10000) for _ in range(r.randrange(0, 6))) if t not in F.CONTROL_TYPES)
             pl.append((0, 0, r.choice((1, 1, 2)), ts))
         plans.append(pl)
     if n and n < len(plans):
